@@ -28,10 +28,12 @@ type memConn struct {
 	readFail int // fail the k-th read and later; -1: never
 	closes   int
 	pushed   int // number of client chunks handed to the transport so far
+	addr     string
+	sslFirst bool
 }
 
 func newMemConn() *memConn {
-	c := &memConn{failAt: -1, readFail: -1}
+	c := &memConn{failAt: -1, readFail: -1, addr: "client"}
 	c.cond = sync.NewCond(&c.mu)
 	return c
 }
@@ -175,8 +177,13 @@ type memAddr string
 func (a memAddr) Network() string { return "mem" }
 func (a memAddr) String() string  { return string(a) }
 
-func (c *memConn) LocalAddr() net.Addr                { return memAddr("server") }
-func (c *memConn) RemoteAddr() net.Addr               { return memAddr("client") }
+func (c *memConn) LocalAddr() net.Addr { return memAddr("server") }
+func (c *memConn) RemoteAddr() net.Addr {
+	if c.addr == "" {
+		return memAddr("client")
+	}
+	return memAddr(c.addr)
+}
 func (c *memConn) SetDeadline(t time.Time) error      { return nil }
 func (c *memConn) SetReadDeadline(t time.Time) error  { return nil }
 func (c *memConn) SetWriteDeadline(t time.Time) error { return nil }
